@@ -56,6 +56,16 @@ def gen_case(r, shape):
             t = Op(r.choice(["and", "or", "xor"]), t, o) if r.coin() else Op(r.choice(["and", "or", "xor"]), o, t)
         kinds |= set(other_kinds)
     sp = SP.Spelling(r)
+    if r.pct() < 6 and (shape[0], "dtype", "in_") in SHAPES and (shape[0], "dtype", "not_in") in SHAPES:
+        # a dtype term over a list of types next to a plain term over the list of the same type NAMES (as strings): with
+        # the list written once and used twice the two terms share one argument object (seeded C09-o)
+        k = shape[0]
+        ts = r.subset([int, float, str, list, dict, bool], 1, 3)
+        typed = Leaf(k, "dtype", r.choice(["in_", "not_in"]), (), {"value": list(ts)})
+        plain = Leaf(k, None, r.choice(["in_", "not_in", "equal_to", "not_equal_to"]), (), {"value": [SP.TYPE_NAMES[x][0] for x in ts]})
+        pair = Op(r.choice(["and", "or", "xor"]), *((typed, plain) if r.coin() else (plain, typed)))
+        t = pair if r.coin() else Op(r.choice(["and", "or", "xor"]), pair, leaf)
+        sp.share = True
     spec = SP.cond_spec(t, sp)
     return t, spec, sorted(sp.dims), probes_for(r, kinds)
 
